@@ -3,6 +3,7 @@ package url
 import (
 	"reflect"
 	"sort"
+	"strings"
 
 	"github.com/dop251/goja_nodejs/errors"
 
@@ -48,7 +49,7 @@ func (m *urlModule) createURLSearchParamsConstructor() goja.Value {
 		if o, ok := v.(*goja.Object); ok {
 			sp = m.buildParamsFromObject(o)
 		} else if !goja.IsUndefined(v) {
-			sp = parseSearchQuery(v.String())
+			sp = parseSearchQuery(strings.TrimPrefix(v.String(), "?"))
 		}
 
 		return m.newURLSearchParams(&urlSearchParams{searchParams: sp})
